@@ -36,6 +36,53 @@ fn structured(kind: usize, delta: f64, backlog: usize, n: usize, shape: usize, n
     }
 }
 
+/// Values whose RANGE leaves f64 (min near -1.3e308, max near +1.2e308: max - min overflows) are legal finite inputs.
+/// quantile() only: finite, inside [min, max], non-decreasing, min at 0 and max at 1 (tolerance 8 ulps of the largest
+/// magnitude). cdf() is not judged at this scale (its own differences of means overflow on the unchanged tree too).
+fn extreme_range(kind: usize, delta: f64, backlog: usize) -> (u64, Option<(String, String)>) {
+    let big = 2f64.powi(1022);
+    let vals = [-3.0, 2.5, -1.0, 1.0, 0.0, 2.0, -2.5, 0.5, -0.25, 1.75, -3.0, 2.5];
+    let mut evals = 0u64;
+    for n in 2..=vals.len() {
+        let r = mccore::panics::catch(|| {
+            let mut d = Dg::new(kind, delta, backlog);
+            let (mut mn, mut mx) = (f64::INFINITY, f64::NEG_INFINITY);
+            for &v in &vals[..n] {
+                d.insert(v * big);
+                mn = mn.min(v * big);
+                mx = mx.max(v * big);
+            }
+            let tol = 8.0 * f64::EPSILON * mn.abs().max(mx.abs());
+            let mut prev = f64::NEG_INFINITY;
+            for j in 0..=48 {
+                let q = j as f64 / 48.0;
+                let x = d.quantile(q);
+                if !x.is_finite() {
+                    return Some(("not finite", format!("quantile({}) = {} on {} finite values between {:e} and {:e}", q, x, n, mn, mx)));
+                }
+                if x < mn - tol || x > mx + tol {
+                    return Some(("outside [min, max]", format!("quantile({}) = {:e} outside [min, max] = [{:e}, {:e}]", q, x, mn, mx)));
+                }
+                if x < prev - tol {
+                    return Some(("not monotone", format!("quantile({}) = {:e} below the previous grid point {:e}", q, x, prev)));
+                }
+                prev = x;
+            }
+            if (d.quantile(0.0) - mn).abs() > tol || (d.quantile(1.0) - mx).abs() > tol {
+                return Some(("end points", format!("quantile(0) / quantile(1) = {:e} / {:e} but min / max = {:e} / {:e}", d.quantile(0.0), d.quantile(1.0), mn, mx)));
+            }
+            None
+        });
+        evals += 51;
+        match r {
+            Err(p) => return (evals, Some((format!("extreme range {}(delta={}) backlog={}: panic", td::KIND_NAMES[kind], delta, backlog), format!("a call panicked on values x 2^1022: {}", p)))),
+            Ok(Some((class, m))) => return (evals, Some((format!("extreme range {}(delta={}) backlog={}: {}", td::KIND_NAMES[kind], delta, backlog, class), m))),
+            Ok(None) => {}
+        }
+    }
+    (evals, None)
+}
+
 fn main() {
     let args = parse_args();
     let mut run = Runner::new("C15", &args.tier, "model_checking");
@@ -93,6 +140,17 @@ fn main() {
         if let Some((sig, msg)) = bad {
             run.violation(Viol { property: "C15".into(), signature: format!("tdigest {}", sig), message: format!("{}(delta={}) backlog={} n={} shape={} weight={:e}: {}", td::KIND_NAMES[*k], d, b, n, s, ws, msg),
                 replay: json!({"structure": "TDigest", "scale_function": td::KIND_NAMES[*k], "delta": d, "max_backlog_size": b, "n": n, "weight_of_every_insert": ws, "shape": (["uniform*100", "exponential", "ten atoms", "atom + cliff"][s / 2]), "order": (if s % 2 == 0 { "ascending" } else { "descending" }), "values": "v_i = shape((j+0.5)/n), j = i or n-1-i"}) });
+        }
+    }
+    {
+        let ejobs: Vec<(usize, f64, usize)> = (0..4).flat_map(|k| [(k, 1.1, 0usize), (k, 2.0, 0), (k, 5.0, 2), (k, 100.0, 0), (k, 100.0, 5)]).collect();
+        let eres = par_map(&ejobs, n_threads(), |&(k, d, b)| extreme_range(k, d, b));
+        for ((k, d, b), (e, bad)) in ejobs.iter().zip(eres) {
+            evals += e;
+            if let Some((sig, msg)) = bad {
+                run.violation(Viol { property: "C15".into(), signature: format!("tdigest {}", sig), message: format!("{}(delta={}) backlog={}: {}", td::KIND_NAMES[*k], d, b, msg),
+                    replay: json!({"structure": "TDigest", "scale_function": td::KIND_NAMES[*k], "delta": d, "max_backlog_size": b, "values": "prefixes of [-3, 2.5, -1, 1, 0, 2, -2.5, 0.5, -0.25, 1.75, -3, 2.5] x 2^1022", "checked": "quantile on a 49-point grid"}) });
+            }
         }
     }
     run.ev.set("states", json!(nodes + sn));
